@@ -95,6 +95,38 @@ def lean_stage(pid):
     return res
 
 
+def _amplified_ulp_days(L, name, d2, reg2, encs):
+    """days (scenario, t) of a re-recorded trace set on which the day-level replay `name` disagrees although every
+    sub-process replay of that day agrees within the tolerance with at least one non-bit-equal reply; returns the
+    list of disagreeing days that are NOT explained that way"""
+    day_pairs = d2["pairs"].get(name, [])
+    out = proto.run_driver(reg2.lines + [l for (_, _, l, e) in day_pairs])[len(reg2.lines):]
+    bad_days = [(sid, t) for (sid, t, l, e), o in zip(day_pairs, out) if not proto.compare(e, L.trim_reply(o))[0]]
+    unexplained = []
+    for (sid, t) in bad_days:
+        sub = []
+        for pname, plist in d2["pairs"].items():
+            Lp = encs.get(pname)
+            if Lp is None or getattr(Lp, "HANDLER", None) in ("full_day", "water_day"):
+                continue
+            sub += [(Lp, l, e) for (s_, t_, l, e) in plist if s_ == sid and t_ == t]
+        if not sub:
+            unexplained.append((sid, t))
+            continue
+        outs = proto.run_driver(reg2.lines + [l for (_, l, _) in sub])[len(reg2.lines):]
+        all_ok, some_inexact = True, False
+        for (Lp, l, e), o in zip(sub, outs):
+            r = Lp.trim_reply(o)
+            if not proto.compare(e, r)[0]:
+                all_ok = False
+                break
+            if e.split() != r.split():
+                some_inexact = True
+        if not (all_ok and some_inexact):
+            unexplained.append((sid, t))
+    return unexplained
+
+
 def tie_stage(spec, data, tier, seed):
     """model vs implementation for the processes the property's theorems are about.
 
@@ -147,15 +179,25 @@ def tie_stage(spec, data, tier, seed):
             reg2 = proto.ProfRegistry()
             reg2.lines = list(d2["prof_lines"])
             st2 = fuzzlib.compare_batch(L, reg2, [(l, e) for (_, _, l, e) in d2["pairs"].get(name, [])])
-            if st2.bad == 0 and st2.calls > 0:
+            remaining = None
+            if st2.bad and st2.calls > 0 and getattr(L, "HANDLER", None) in ("full_day", "water_day"):
+                # a whole-day replay still disagrees under the shared libm.  Python's `x ** 2` (C `pow`) and the
+                # model's `x * x` differ by one ulp for ~0.1 % of arguments, and no patch reaches the `**` operator:
+                # a day whose sub-process replays (fed Python's own inputs) all agree within the tolerance, at least
+                # one of them not bit for bit, is a sub-ulp difference amplified through a branch — an ulp tie too
+                remaining = _amplified_ulp_days(L, name, d2, reg2, encs)
+            if (st2.bad == 0 and st2.calls > 0) or remaining == []:
                 d["ulp_ties"] = st.bad
                 d["disagreements"] = 0
             else:
                 outb = dict(st2.first_bad[0]) if st2.first_bad else dict(st.first_bad[0])
-                for (sid, t, l, e) in pairs:
-                    if l == st.first_bad[0]["line"]:
-                        outb["scen"], outb["t"] = sid, t
-                        break
+                if remaining:
+                    outb["scen"], outb["t"] = remaining[0]
+                else:
+                    for (sid, t, l, e) in pairs:
+                        if l == st.first_bad[0]["line"]:
+                            outb["scen"], outb["t"] = sid, t
+                            break
                 disagreements.append(dict(process=name, source="whole-run", **outb))
         stats.append(d)
         if hasattr(L, "fuzz") and hasattr(L, "FUNC"):
